@@ -63,6 +63,16 @@ REGEX_METHODS = {"search", "match", "sub", "split", "groupdict", "group",
                  "groups", "fullmatch", "findall", "finditer"}
 
 
+
+def _widen_ext(t):
+    """Widening for the unbounded chain types of values coming from outside
+    the package ("ext:a.b().c.d()..."): beyond a small depth every such
+    value is the one type "ext:?", so the fix-point terminates."""
+    if len(t) > 90 or t.count(".") + t.count("(") > 8:
+        return "ext:?"
+    return t
+
+
 class Edge:
     __slots__ = ("node", "callee", "kind", "recv")
 
@@ -721,7 +731,7 @@ class Resolver:
                 if tm is not None:
                     out |= self._global_types(e.attr, tm)
             elif t.startswith("ext:"):
-                out.add(t + "." + e.attr)
+                out.add(_widen_ext(t + "." + e.attr))
             elif t.startswith("class:"):
                 c = self.cls_of(t[6:])
                 if c is not None:
@@ -1008,7 +1018,7 @@ class Resolver:
                         return self._builtin_call(call, t[6:])
                 elif t.startswith("ext:"):
                     status = "ext"
-                    rtypes.add(t + "()")
+                    rtypes.add(_widen_ext(t + "()"))
             return callees, rtypes, status
         if isinstance(fn, ast.Attribute):
             bt = self.types(fn.value)
@@ -1040,7 +1050,7 @@ class Resolver:
                     elif full == "time.time":
                         rtypes.add("float")
                     else:
-                        rtypes.add("ext:" + full + "()")
+                        rtypes.add(_widen_ext("ext:" + full + "()"))
                 elif t.startswith("class:"):
                     c = self.cls_of(t[6:])
                     if c is None:
